@@ -113,7 +113,8 @@ def explore(ctx):
             for u in dirs:
                 uu = sum(x * x for x in u)
                 want = sum(u[i] * m2[i][j] * u[j] for i in range(nd) for j in range(nd)) / uu
-                for c in (1, rng.choice([2, 7, 0.5]), -1, -3):
+                # ... also nearly, but not exactly, of unit length (a direction typed with five decimals)
+                for c in (1, rng.choice([2, 7, 0.5]), -1, -3, (1 + rng.choice([3e-6, -4e-6, 8e-6, -9e-6])) / float(uu) ** 0.5):
                     got = st.mom2_along(tuple(c * x for x in u))
                     if not close(got, want):
                         fails.append('mom2_along(%s * %s) = %r, quadratic form for the normalised direction %s' % (c, u, got, float(want)))
@@ -223,6 +224,30 @@ def memo_histories(ctx):
                 fails.append('%s raised %r' % (meth, e))
                 break
             calls.append((k, meth, args))
+        if not fails and rng.random() < 0.5:
+            # array directions that print alike: a tiny tilt below the printed precision, and long stacks of rows of
+            # which numpy prints the first and last three only
+            k = rng.randrange(len(live))
+            ndk = nds[k]
+            u = np.array([rng.randint(1, 3) for _ in range(ndk)], dtype=float)
+            tilt = u.copy()
+            tilt[0] += 3e-9
+            rows = np.array([[rng.randint(-3, 3) or 1 for _ in range(ndk)] for _ in range(1100 // ndk + 1)], dtype=float)
+            rows2 = rows.copy()
+            rows2[len(rows) // 2] = rows2[len(rows) // 2][::-1] * 2 + 1
+            for a1, a2, what in ((u, tilt, 'tilted by 3e-9'), (rows, rows2, 'with another middle row')):
+                try:
+                    live[k].mom2_along(a1)
+                    got = np.asarray(live[k].mom2_along(a2), dtype=float)
+                    want = np.asarray(stat_of(objs_pts[k], ndk).mom2_along(a2), dtype=float)
+                    if got.shape != want.shape or not np.allclose(got, want, rtol=1e-13, atol=0, equal_nan=True):
+                        fails.append('mom2_along(array %s) on object %d after the call with the original array differs from a fresh object (largest difference %r)'
+                                     % (what, k, float(np.nanmax(np.abs(got - want))) if got.shape == want.shape else 'shape'))
+                        break
+                except Exception as e:
+                    fails.append('mom2_along(array) raised %r' % (e,))
+                    break
+            ctx.count('memo_lookalike_arrays')
         ctx.count('memo_histories')
         ctx.case_done(None, ('memo', it))
         if fails:
